@@ -804,6 +804,21 @@ func (p *Parser) ParseAnotherIfStatement(keyword string) (*ast.IfStatement, erro
 	return stmt, nil
 }
 
+// caseLabel returns the canonical text of a case label expression in order to detect duplicated labels.
+// Note that String() of the expression must not be used because it includes comments.
+func caseLabel(expr ast.Expression) string {
+	switch t := expr.(type) {
+	case *ast.String:
+		return `"` + t.Value + `"`
+	case *ast.InfixExpression:
+		return caseLabel(t.Left) + " " + t.Operator + " " + caseLabel(t.Right)
+	case *ast.GroupedExpression:
+		return "(" + caseLabel(t.Right) + ")"
+	default:
+		return expr.GetMeta().Token.Literal
+	}
+}
+
 func (p *Parser) ParseSwitchStatement() (*ast.SwitchStatement, error) {
 	stmt := &ast.SwitchStatement{
 		Meta:    p.curToken,
@@ -884,7 +899,7 @@ func (p *Parser) ParseSwitchStatement() (*ast.SwitchStatement, error) {
 			if clause.Test == nil || o.Test == nil || clause.Test.Operator != o.Test.Operator {
 				continue
 			}
-			if clause.Test.Right.String() == o.Test.Right.String() {
+			if caseLabel(clause.Test.Right) == caseLabel(o.Test.Right) {
 				return nil, errors.WithStack(DuplicateCase(clause.Test.Meta))
 			}
 		}
